@@ -57,6 +57,9 @@ P['C05'] = dict(cat='other', tech='must-pass-through path rule with effect sets 
 P['C09'] = dict(cat='other', tech='effect sets (A3) against allowed sets, replace-or-append search idiom, step-order path rule, validate-before-assign dominance, accumulator width rule (custom libTooling checker)',
    text='Partial claim: edit functions only append or assign the matched element (nothing erased/inserted/sorted), the replaced element is the exact-name match, c3d::parameter performs its steps in order, typed setters assign only after the consistency test with their own type constant and vector, the consistency products are accumulated in 64-bit unsigned arithmetic, lock toggles write one flag. The arithmetic of isDimensionConsistent as a predicate is not decided.',
    note='' + TB, ref='4/C09')
+P['C16'] = dict(cat='other', tech='exception-discipline inventory, signed-to-unsigned length dataflow, index-site inventory restricted to the load call graph, recursion-scheme rule (custom libTooling checker)',
+   text='Partial claim: only std::exception-derived classes can escape and nothing terminates; no signed file byte becomes a 32-bit unsigned length; every index site on the load path is guarded, justified or a listed finding (K5: unchecked [0] of mandatory parameters); recursion is bounded by the scheme. Time/memory proportional to file size is NOT decided (known finding K8, pinned by the suite).',
+   note='Allocation failure surfaces as a standard exception. ' + TB, ref='4/C16')
 NA = {
  'C19': 'compares compiled artefacts across optimisation levels / link kinds; not decidable from source without running the builds (DESIGN 4/C19)',
 }
